@@ -396,7 +396,8 @@ func (c *Ctx) ORIGIN(rule string) []report.Obligation {
 						if st, ok := in.(*ssa.Store); ok {
 							if fa, ok := st.Addr.(*ssa.FieldAddr); ok && fa.X == ld.X && fieldName(fa) == "WorkingDir" {
 								// the value must come from loader.Dir(...) / the include's project directory, never from the parent's workingDir parameter
-								good = st.Val != ssa.Value(f.Params[1]) && !c.derivedFrom(st.Val, f.Params[1], 3)
+								wd := paramByType(f, "string")
+								good = wd != nil && st.Val != ssa.Value(wd) && !c.derivedFrom(st.Val, wd, 3)
 								if good {
 									good = c.mentionsDirOrProjectDir(st.Val, 5)
 								}
